@@ -30,6 +30,14 @@ class DocActions(object):
 
     self._engine.add_records(table_id, row_ids, column_values)
 
+    # As in BulkUpdateRecord: a data column with a trigger formula keeps a value that was given
+    # explicitly, even if a column it depends on is filled in by the same action (for a new
+    # record, every column counts as changed).
+    for col_id in column_values:
+      col = table.get_column(col_id)
+      if not col.is_formula():
+        self._engine.prevent_recalc(col.node, row_ids, should_prevent=True)
+
   def RemoveRecord(self, table_id, row_id):
     return self.BulkRemoveRecord(table_id, [row_id])
 
